@@ -88,6 +88,12 @@ def run(prop, tier):
                     r1 = P.run_sim(ps, pg, at.ProgramInstructions(start_year=s_start, alloc=pg, **({kind: kw1} if kind != "alloc" else {})) if kind != "alloc" else at.ProgramInstructions(start_year=s_start, alloc=kw1), store_results=False)
                     rid = pair(records, index, rid, dict(model=name, intervention="%s change" % kind, Y=Y), r1, r0, Y)
                     npairs += 1
+                # the value in force before Y dated before the programs are switched on (stepped series: it holds from the start year until Y)
+                kw0 = {pn: TimeSeries([s_start - 1.0], [float(pg.programs[pn].spend_data.interpolate(s_start, method="previous")[0])]) for pn in progs[:2]}
+                kw1 = {pn: TimeSeries([s_start - 1.0, Y], [float(ts_.vals[0]), float(ts_.vals[0]) * 4 + 7]) for pn, ts_ in kw0.items()}
+                rid = pair(records, index, rid, dict(model=name, intervention="alloc change, prior value dated before the start year", Y=Y),
+                           P.run_sim(ps, pg, at.ProgramInstructions(start_year=s_start, alloc=kw1), store_results=False), P.run_sim(ps, pg, at.ProgramInstructions(start_year=s_start, alloc=kw0), store_results=False), Y)
+                npairs += 1
         # --- the same budget change written by an optimisation adjustment (SpendingAdjustment.update_instructions inserts the value at Y into the
         #     allocation that already states the spending from the program start year)
         try:
@@ -136,6 +142,31 @@ def run(prop, tier):
                         continue
                     rid = pair(records, index, rid, dict(model=name, intervention="parameter scenario (%s) on %s parameter" % (interp, "function" if par in fnpars else "data"), par=par, Y=Y), r1, base, Y)
                     npairs += 1
+        # --- a scenario whose first point lies after the end of the simulation changes nothing in it
+        for par in (datapars[:1] + fnpars[:1]):
+            scen = at.ParameterScenario(name="later", interpolation="linear")
+            scen.add(par, pops[0], [float(P.settings.sim_end) + 5.0], [0.123])
+            try:
+                r1 = P.run_sim(scen.get_parset(ps, P), store_results=False)
+                rid = pair(records, index, rid, dict(model=name, intervention="parameter scenario starting after the end of the simulation", par=par, Y=float(P.settings.sim_end) + 5.0), r1, base, float(P.settings.sim_end) + 5.0)
+                npairs += 1
+            except Exception as ex:
+                V.violation("C09 scenario starting after the end raised %s" % type(ex).__name__, dict(model=name, par=par, error=str(ex)[:200]))
+        # --- weekly steps (years that differ by less than 0.02 are different time points): a scenario on a function parameter, Y on and off the grid
+        if name == models[0] and fnpars:
+            e_old = float(P.settings.sim_end)
+            P.settings.update_time_vector(end=s0 + 5.0, dt=1.0 / 52)
+            try:
+                bw = P.run_sim(ps, store_results=False)
+                for par in fnpars:
+                    for Y in (float(bw.model.t[130]), float(bw.model.t[150]) + 0.005):
+                        cur = float(np.nan_to_num(bw.model.pops[0].get_par(par).vals[3], nan=0.1))
+                        scen = at.ParameterScenario(name="s", interpolation="previous")
+                        scen.add(par, pops[0], [Y], [cur * 1.7 + 0.01])
+                        rid = pair(records, index, rid, dict(model=name, intervention="parameter scenario on function parameter, weekly steps", par=par, Y=Y), P.run_sim(scen.get_parset(ps, P), store_results=False), bw, Y)
+                        npairs += 1
+            finally:
+                P.settings.update_time_vector(end=e_old, dt=dt)
         # --- stacked scenarios: a second overwrite starting later must not undo the first one before its own start year
         for par in (datapars[:1] + fnpars):
             Y1, Y2 = s0 + 2, s0 + 4 + dt / 2
